@@ -6,10 +6,13 @@ import Uft.Model.Patch
    pl <defmod> <lib> <soname|~> <patchstr> <nsyms> <sym>… <npat> <bits over syms>…
         -> "n=<k> <name>:<module>:<+|->… | <verdicts: one of + - 0 per symbol> | mod=<0|1>"
    pf <ty> <minsize> <symsize> <start> <addr> <tramp> <codehex>     -> "rc=<int> <codehex>"
-   uf <ty> <addr> <loc|~> <codehex>                                 -> "rc=<int> <codehex>"
-   flow <defmod> <patchstr> <minsize> <fentryaddr>
+   fixed <0|1>          selects the unpatch_func that `uf` and `flow` model from here on
+                        (0 = the code as it is, 1 = repaired: finding C14-unpatch-any-call; default 1)  -> "ok"
+   uf <ty> <addr> <loc|~> <codehex> [<start> <maplen> <textlo> <texthi> <tramp> <fentry> <mcount>
+        {P <name> <addr> <size>}…]                                   -> "rc=<int> <codehex>"
+   flow <defmod> <patchstr> <minsize> <fentryaddr> <mcountaddr>
       | <lib> <ty> <start> <textaddr> <textsize> <setupfails> <npages> <initperms> <codehex>
-          S <name> <addr> <size> <isfunc> <bits over patterns> … L <loc> <bits over patterns> …
+          S <name> <addr> <size> <1 func|0 other|P plt> <bits over patterns> … L <loc> <bits over patterns> …
       | …
         -> "<mod> | <mod> | … | stats <total> <failed> <skipped> <nomatch>"
            mod = "tramp=<hex> tsize=<n> mid=<perms> post=<perms> <codehex>"
@@ -80,12 +83,31 @@ def handlePf : List String → String
     | _, _, _, _, _, _, _ => "bad-op"
   | _ => "bad-op"
 
-def handleUf : List String → String
+def parsePlt : List String → List Sym → Option (List Sym)
+  | [], acc => some acc.reverse
+  | "P" :: n :: a :: sz :: rest, acc =>
+    match str n, num a, num sz with
+    | some n, some a, some sz =>
+      parsePlt rest ({ name := n, addr := a, size := sz, isFunc := false, isPlt := true } :: acc)
+    | _, _, _ => none
+  | _, _ => none
+
+def handleUf (fixed : Bool) : List String → String
   | [ty, a, loc, code] =>
     match parseTy ty, num a, parseHexBytes code with
     | some ty, some a, some code =>
       showRes (unpatchFunc ty code a (if loc = "~" then none else num loc))
     | _, _, _ => "bad-op"
+  | ty :: a :: loc :: code :: st :: ml :: tlo :: thi :: tr :: fe :: mc :: plt =>
+    match parseTy ty, num a, parseHexBytes code, parsePlt plt [] with
+    | some ty, some a, some code, some plt =>
+      match num st, num ml, num tlo, num thi, num tr, num fe, num mc with
+      | some st, some ml, some tlo, some thi, some tr, some fe, some mc =>
+        let cfg : Cfg := { ty := ty, minSize := 0, start := st, tramp := tr, locs := [], fixed := fixed,
+                           mapLen := ml, textLo := tlo, textHi := thi, symtab := plt, entryFuncs := [fe, mc] }
+        showRes (unpatchFuncG cfg code a (if loc = "~" then none else num loc))
+      | _, _, _, _, _, _, _ => "bad-op"
+    | _, _, _, _ => "bad-op"
   | _ => "bad-op"
 
 def permOfChar : Char → Perm
@@ -104,7 +126,8 @@ def parseRecs : List String → List Sym → List Nat → List (String × String
   | "S" :: n :: a :: sz :: f :: bits :: rest, ss, ls, mt =>
     match str n, num a, num sz with
     | some n, some a, some sz =>
-      parseRecs rest ({ name := n, addr := a, size := sz, isFunc := f == "1" } :: ss) ls ((n, bits) :: mt)
+      parseRecs rest ({ name := n, addr := a, size := sz, isFunc := f == "1", isPlt := f == "P" } :: ss) ls
+        ((n, bits) :: mt)
     | _, _, _ => none
   | "L" :: l :: bits :: rest, ss, ls, mt =>
     match num l with
@@ -118,13 +141,14 @@ structure ModIn where
   perms : String
   mt : List (String × String)
 
-def parseMod : List String → Option ModIn
+def parseMod (fixed : Bool) (mcount : Nat) : List String → Option ModIn
   | lib :: ty :: st :: ta :: ts :: sf :: np :: perms :: code :: recs =>
     match str lib, parseTy ty, num st, num ta, num ts, num np, parseHexBytes code,
           parseRecs recs [] [] [] with
     | some lib, some ty, some st, some ta, some ts, some np, some code, some (ss, ls, mt) =>
       some { m := { libname := lib, ty := ty, start := st, textAddr := ta, textSize := ts,
-                    code := code, syms := ss, locs := ls, setupFails := sf == "1" },
+                    code := code, syms := ss, locs := ls, setupFails := sf == "1",
+                    mapLen := np * 4096, unpatchFixed := fixed, mcountAddr := mcount },
              npages := np, perms := perms, mt := mt }
     | _, _, _, _, _, _, _, _ => none
   | _ => none
@@ -132,10 +156,10 @@ def parseMod : List String → Option ModIn
 def permsOf (pg : Pages) (start npages : Nat) : String :=
   String.ofList ((List.range (npages + 1)).map fun i => charOfPerm (pg (start / 4096 + i)))
 
-def handleFlow (ws : List String) : String :=
+def handleFlow (fixed : Bool) (ws : List String) : String :=
   match splitBar ws with
-  | [dm, ps, ms, fa] :: mods =>
-    match str dm, str ps, num ms, num fa, mods.mapM parseMod with
+  | [dm, ps, ms, fa, mc] :: mods =>
+    match str dm, str ps, num ms, num fa, num mc >>= fun mc => mods.mapM (parseMod fixed mc) with
     | some dm, some ps, some ms, some fa, some mods =>
       let pl := parsePatternList ps dm
       let mt := mods.flatMap (·.mt)
@@ -181,14 +205,20 @@ def handleDt : List String → String
     | _, _ => "bad-op"
   | _ => "bad-op"
 
-def handle : List String → String
+def handle (fixed : Bool) : List String → String
   | "pl" :: r => handlePl r
   | "pf" :: r => handlePf r
-  | "uf" :: r => handleUf r
-  | "flow" :: r => handleFlow r
+  | "uf" :: r => handleUf fixed r
+  | "flow" :: r => handleFlow fixed r
   | "dt" :: r => handleDt r
   | _ => "bad-op"
 
-def model : Model := { σ := Unit, init := (), step := fun _ ws => ((), handle ws) }
+/-- state: which unpatch_func is modelled (`fixed <0|1>` switches) -/
+def model : Model :=
+  { σ := Bool, init := true,
+    step := fun fx ws =>
+      match ws with
+      | ["fixed", b] => (b == "1", "ok")
+      | _ => (fx, handle fx ws) }
 
 end Driver.C14
